@@ -43,8 +43,11 @@ def cases(draw):
         r = R.rule(r['regex'], r['op'], R.NOQ, dict(draw(st.sampled_from(R.COMMON_CFGS))[1]))
       steps.append({'do': 'add', 'rule': r, 'enum': draw(st.booleans()),
                     'default_cfg_none': draw(st.integers(0, 5)) == 0})
-    else:
+    elif k == 8:
       steps.append({'do': 'load', 'rules': draw(st.lists(c11.rule_specs(), max_size=3))})
+    else:
+      # the recipe is looked at in the middle of the history
+      steps.append({'do': 'export'})
   mspec = draw(G.model_specs(max_nodes=4, max_subgraphs=1))
   return {'steps': steps, 'model': mspec, 'calib_seed': draw(st.integers(0, 99))}
 
@@ -57,6 +60,10 @@ def build_recipe(qt, steps):
   """Drive the API; refused/ill-formed steps are skipped (counted by the caller)."""
   n_ok = 0
   for s in steps:
+    if s['do'] == 'export':
+      qt.get_quantization_recipe()
+      _ = qt.need_calibration
+      continue
     if s['do'] == 'add':
       r = s['rule']
       try:
